@@ -191,8 +191,13 @@ def check_twohot_on_real_bins(vecs, lo, hi, seed=0):
     if rb is None:
         return out, 0
     rb = np.asarray(rb)
-    if rb.shape != (n,) or not np.all(np.diff(rb) > 0):
-        return out, 0  # reported by the NumericsBins check
+    # same keys as the NumericsBins check gives (one defect, one key)
+    if rb.shape != (n,):
+        out.append(Problem("make_two_hot_bins:BinsCount", f"make_two_hot_bins({lo}, {hi}, {n}) has shape {rb.shape}", {"op": "Bins", "args": {"lo": lo, "hi": hi, "n": n}}))
+        return out, 0
+    if not np.all(np.diff(rb) > 0):
+        out.append(Problem("make_two_hot_bins:BinsStrictlyIncreasing", f"make_two_hot_bins({lo}, {hi}, {n}) is not strictly increasing", {"op": "Bins", "args": {"lo": lo, "hi": hi, "n": n}}))
+        return out, 0
     vecs = list(vecs)
     random.Random(seed * 104729 + n).shuffle(vecs)
     xs, use = [], []
@@ -451,14 +456,14 @@ def record_bins(cases):
     return recs, problems
 
 
-def tlc_bins(recs, tag, workers=1):
+def tlc_bins(recs, tag, workers=1, invs=BINS_INVS):
     d = os.path.join(tlc.OUT, "tmp")
     os.makedirs(d, exist_ok=True)
     path = os.path.join(d, f"c18-bins-{os.getpid()}-{tag}.json")
     with open(path, "w") as f:
         json.dump(recs, f)
     try:
-        return tlc.run("NumericsBins", tlc.cfg_text(invariants=BINS_INVS), workers=workers, env={"C18_BINS_FILE": path}, tag="c18" + tag)
+        return tlc.run("NumericsBins", tlc.cfg_text(invariants=list(invs)), workers=workers, env={"C18_BINS_FILE": path}, tag="c18" + tag)
     finally:
         os.remove(path)
 
@@ -541,7 +546,7 @@ def run(rep):
         big = dict(MaxT=32, MaxCE=7, MaxMSE=4, NPairs=5)
         lattices = [
             ("lattice", dict(big, IOTA={2, 3, 5, 9, 17, 33}), dict(big, IOTA={2, 3, 5, 9, 17, 33, 65, 100, 101})),
-            ("mse6", dict(FAMS={"mse"}, MaxMSE=6, NPairs=3), dict(FAMS={"mse"}, MaxMSE=6, NPairs=3)),
+            ("mse6", dict(FAMS={"mse"}, MaxMSE=6, NPairs=2), dict(FAMS={"mse"}, MaxMSE=6, NPairs=2)),
         ]
     rep.rule = (
         "TLC enumerates every test vector of Numerics.tla (staged choice: bins x position / logits, delta x error, shape x mask x rows, "
@@ -620,14 +625,15 @@ def run(rep):
     for v in by_op["TwoHot"]:
         if v["args"]["iota"]:
             iota[len(v["args"]["bins"])].append(v)
-    real_cases = 0
+    real_cases, real_attempts = 0, 0
     for n, params in sorted(real_bin_params(quick).items()):
         for lo, hi in params:
             if iota.get(n):
                 pr, used = check_twohot_on_real_bins(iota[n], lo, hi, rep.seed)
                 report(pr)
                 real_cases += used
-    if real_cases == 0:
+                real_attempts += 1
+    if real_attempts == 0:
         raise tlc.MachineryError("no vector was mapped onto make_two_hot_bins outputs")
     n_eval += real_cases
     lap("replay_single_and_real_bins")
@@ -636,7 +642,7 @@ def run(rep):
 
     # (5) binding canary: a corrupted expected value must be noticed by every comparison
     for op in OPS:
-        v = next((t for t in by_op[op] if nontrivial(t) and (op != "TwoHot" or t["args"]["sentinel_ok"])), by_op[op][0])
+        v = next((t for t in by_op[op] if nontrivial(t) and (op != "TwoHot" or (t["args"]["sentinel_ok"] and len(t["args"]["bins"]) <= 9))), by_op[op][0])
         if CHECKS[op]([v], rep.seed):
             continue  # the honest vector already fails (reported above): canary not applicable
         if not CHECKS[op]([_corrupt(v)], rep.seed):
@@ -658,17 +664,17 @@ def run(rep):
         )
     elif rb.distinct != len(recs) + 1:
         raise tlc.MachineryError(f"NumericsBins examined {rb.distinct - 1} of {len(recs)} recorded cases")
-    if recs:
-        swapped = json.loads(json.dumps(recs[-1:]))
+    ok2 = [r for r in recs if len(r["ords"]) >= 2]
+    if ok2:
+        swapped = json.loads(json.dumps(ok2[-1:]))
         o = swapped[0]["ords"]
-        if len(o) >= 2:
-            o[0], o[1] = o[1], o[0]
-            if tlc_bins(swapped, "binscan").violated != "BinsStrictlyIncreasing":
-                raise tlc.MachineryError("binding canary: swapped bin ordinals not refuted by BinsStrictlyIncreasing")
+        o[0], o[1] = o[1], o[0]
+        if tlc_bins(swapped, "binscan", invs=["BinsStrictlyIncreasing"]).violated != "BinsStrictlyIncreasing":
+            raise tlc.MachineryError("binding canary: swapped bin ordinals not refuted by BinsStrictlyIncreasing")
     n_eval += len(recs)
     lap("bins_ordinals")
     d = next((r for r in recs if (r["lo"], r["hi"], r["n"]) == (-10, 10, 101)), None)
-    if d:
+    if d and len(d["ords"]) == 101:
         rep.extra["observation_default_bins"] = {
             "mirror_symmetric": all(d["ords"][k] == -d["ords"][100 - k] for k in range(101)),
             "middle_edge_ordinal": d["ords"][50],
@@ -680,7 +686,7 @@ def run(rep):
     rep.distinct = sum(1 for v in vectors if nontrivial(v)) + len(recs)
     rep.exhaustive = True
     for op in ("TwoHot", "MaskedMSE", "LinearSchedule", "CrossEntropy"):
-        vs = [v for v in by_op[op] if nontrivial(v)]
+        vs = [v for v in by_op[op] if nontrivial(v) and (op != "TwoHot" or v["args"]["sentinel_ok"])]
         vs = [v for v in vs if len(json.dumps(v)) < 700] or vs
         rep.sample(vs[rng.randrange(len(vs))])
     rep.assumptions += [
